@@ -33,7 +33,8 @@ def must_see(tier):
             'db-schedules': 100, 'cell-histories': 100,
             'setstate-zero-on-live': 20, 'subclass-default': 20,
             'session-steps': 500, 'session:commit': 50, 'session:evict': 30,
-            'session:abort': 20}
+            'session:abort': 20, 'session:attr': 20,
+            'db-schedules:extra-attribute': 30}
 
 
 def plan(tier, seed):
@@ -198,6 +199,15 @@ def run_shard(spec, rec):
         c0.commit()
         c1, c2 = minidb.Connection(st, 'c'), minidb.Connection(st, 'c')
         l1, l2 = c1.get(oid), c2.get(oid)
+        if s % 5 == 1:
+            # application data hung on the counter object by ONE of the two
+            # transactions (whatever becomes of the attribute, the three
+            # states handed to the resolver must still add up)
+            (l1 if s % 2 else l2).note = 'x'
+            rec.ev('db-schedules:extra-attribute')
+        elif s % 5 == 2:
+            l1.note = l2.note = ('y', s)
+            rec.ev('db-schedules:extra-attribute')
         l1.change(a)
         l2.change(b)
         first, second = (c1, c2) if s % 2 else (c2, c1)
@@ -275,6 +285,13 @@ def run_sessions(rng, rec, Length, s):
             x.obj.set(v)
             x.lv = v
             x.dirty = True
+        elif r < .40:
+            # an application attribute on the counter object: the object is
+            # modified (and written), its value is not
+            what = ('attr', sess.index(x))
+            activate(x)
+            setattr(x.obj, rng.choice(['note', 'owner']), step)
+            x.dirty = True
         elif r < .58:
             what = ('commit', sess.index(x))
             cur = st.current_tid(oid)
@@ -318,7 +335,7 @@ def run_sessions(rng, rec, Length, s):
         rec.ev('session-steps')
         rec.ev('session:' + what[0])
         rec.seen('session', what[0], x.dirty, x.loaded)
-        if what[0] in ('change', 'set', 'read'):
+        if what[0] in ('change', 'set', 'read', 'attr'):
             got = x.obj()
             if got != x.lv:
                 rec.violation('loaded-counter-shows-wrong-value',
